@@ -40,6 +40,9 @@ def run_case(rs, ctx):
         # on; the continuation itself would be schedule dependent on both twins - keep them single-threaded here
         cfg["n_jobs"], cfg["backend"] = 1, None
         n_jobs, backend = 1, None
+    if cfg["np"].get("probs") is not None and rs.integers(2):
+        cfg["arm_changes_despite_probs"] = True  # arms change although an empty-neighbourhood distribution is configured (K6)
+        ctx.count("probs_with_arm_changes_cases")
     nf = int(gen.pick(rs, [1, 2, 3]))
     sh = gen.Shadow(cfg, nf)
     sh.vary_nf = True
@@ -66,6 +69,11 @@ def run_case(rs, ctx):
         ctx.count("stressed_threaded_query_phases")
     else:
         qa = gen.run_ops(A, queries)
+    if any(isinstance(x, list) and x[:1] == ["EXC"] for x in qa) and all(x[-1] == "K6" for x in qa if isinstance(x, list) and x[:1] == ["EXC"]):
+        # known finding K6: these queries were rejected; a rejected query must change nothing either - the comparison goes on
+        ctx.violation("%s: predict on a row without neighbours raised ValueError (arms changed under no_nhood_prob_of_arm)" % gen.cfg_sig(cfg),
+                      wit, mech="K6")
+        qa = [x for x in qa if not (isinstance(x, list) and x[:1] == ["EXC"])]
     raised = [q for q, x in zip(queries, qa) if isinstance(x, list) and x and x[0] == "EXC"]
     if raised and all(x[1] == "UnboundLocalError" and gen.k5_applies(A, q, "UnboundLocalError")
                       for q, x in zip(queries, qa) if isinstance(x, list) and x and x[0] == "EXC"):
